@@ -95,7 +95,7 @@ def run(ctx, F):
     ctx.judge(len(rd) == 1, "C17.read-after-forwarded", "one read of the forwarding pointer in the spin function", expected="1", found=str(len(rd)), where=where(sp), key="C17.read-after-forwarded|site")
     for c in rd:
         gs = guards(sp, c.bb)
-        fw = [p for p in gs if p.val is True and re.search(r" Eq .*FORWARDED=", show(p.tree)) and "BEING" not in show(p.tree)]
+        fw = [p for p in gs if ((p.val is True and re.search(r" Eq .*FORWARDED=", show(p.tree))) or (p.val is False and re.search(r" Ne .*FORWARDED=", show(p.tree)))) and "BEING" not in show(p.tree)]
         okg = bool(fw)
         loopvar_ok = False
         for p in fw:
